@@ -169,6 +169,7 @@ def placement(draw, plat, single_only=False):
             'use_mpi'  : draw(st.sampled_from([None, None, True, False])),
             'slot_obj' : draw(st.sampled_from([False, False, False, True])),
             'args'     : draw(st.sampled_from([[], ['-x', '1'], ['a b', '$HOME']])),
+            'gpu_share': gpr == 1 and draw(st.sampled_from([False, False, True])),
             'from_reg' : draw(st.booleans())}
 
 
@@ -416,11 +417,14 @@ def build_task(case, rm_info, i, spec, sbox, js_sched=None, fam=None):
         part_nodes = list(range(partition * per, min(len(nodes), (partition + 1) * per)))
 
     rr, cpr, gpr = resolve_ranks(plat, spec, part_nodes)
+    # a rank may hold a share of one GPU (gpus_per_rank 0.5): its slot names that GPU with the
+    # share as occupation, as the Continuous scheduler writes it
+    share = 0.5 if (spec.get('gpu_share') and gpr == 1) else 1.0
     slots = []
     for ni, cores, gpus in rr:
         node = nodes[ni]
         d = {'cores'     : [{'index': c, 'occupation': 1.0} for c in cores],
-             'gpus'      : [{'index': g, 'occupation': 1.0} for g in gpus],
+             'gpus'      : [{'index': g, 'occupation': share} for g in gpus],
              'lfs'       : 0,
              'mem'       : 0,
              'node_index': node['index'],
@@ -431,7 +435,7 @@ def build_task(case, rm_info, i, spec, sbox, js_sched=None, fam=None):
         pl.idx.append(node['index'])
         pl.cores.append(list(cores))
         pl.gpus.append(list(gpus))
-    td   = make_td(spec, len(slots), cpr, gpr)
+    td   = make_td(spec, len(slots), cpr, gpr * share)
     task = {'uid': 'task.%06d' % i, 'description': td, 'slots': slots,
             'task_sandbox_path': sbox, 'partition': partition,
             '_slot_obj': bool(spec.get('slot_obj'))}
@@ -578,6 +582,16 @@ def judge(res, case, rm, task, pl, out):
             fail('srun_node_count', '--nodes %s with %d nodes listed' % (nn, len(p.host_set)))
         if p.extra.get('nodelist_len') != len(p.host_set):
             fail('srun_duplicate_nodes', 'node list repeats nodes')
+
+    if fam == 'SRUN' and pl.gpus:
+        # --gpus-per-task is srun's way to give each rank the GPUs of its slot (a count)
+        want_g = len(pl.gpus[0])
+        got_g  = p.extra.get('gpus_per_task')
+        if got_g is not None and got_g != want_g:
+            fail('srun_gpus_per_task', '--gpus-per-task %s, each rank of the placement holds %d GPU(s) %s'
+                 % (got_g, want_g, pl.gpus[0]))
+        elif got_g is None and want_g and info.get('requested_gpus'):
+            fail('srun_gpus_not_requested', 'no --gpus-per-task although each rank holds %d GPU(s)' % want_g)
 
     if fam == 'PRTE':
         dl  = launcher_details(rm, out.lname).get('dvm_list', {})
